@@ -59,6 +59,27 @@ class LogList(list):
         self.at.append((len(self.run.trace), self.run.loop.time()))
 
 
+# Iteration order of sets of SimRunner objects (the work lists of the cycle check and of the
+# ancestor closure) follows their hashes, which by default are memory addresses: a source of
+# nondeterminism that the harness has to own.  Every run gives its simulators small integer
+# hashes in a chosen order (default: start order; `hash_order` in the configuration).
+HASH_OF = {}
+
+
+def _install_hash():
+    from mosaik.simmanager import SimRunner
+    if getattr(SimRunner, "_mc_hash", False):
+        return
+
+    def __hash__(self):
+        try:
+            return HASH_OF[self.sid]
+        except (AttributeError, KeyError):
+            return object.__hash__(self)
+    SimRunner.__hash__ = __hash__
+    SimRunner._mc_hash = True
+
+
 class Run:
     def __init__(self, scen, cfg, chooser, early=None):
         self.scen = scen
@@ -138,6 +159,10 @@ class Run:
         ents, ents2 = {}, {}
         byid = {s["sid"]: s for s in scen["sims"]}
         order = cfg.get("order") or scen.get("order") or [s["sid"] for s in scen["sims"]]
+        _install_hash()
+        HASH_OF.clear()
+        for i, sid in enumerate(cfg.get("hash_order") or order):
+            HASH_OF[sid] = i + 1
         for sid in order:
             s = byid[sid]
             w.current_group = groups[s.get("group")]
